@@ -116,6 +116,16 @@ def run(pid, tier):
                          "min": 7, "max": 7, "refs": [{"n": nm, "i": 7, "v": ["v", one, ""]} for nm in names],
                          "logs": [{"n": nm, "i": 7, "del": False, "old": "", "new": one, "user": "u", "email": "e", "time": 5, "tz": 0, "msg": "m"} for nm in names[:6]],
                          "seekrefs": names[::3] + ["", "zzz"], "seeklogs": [{"n": names[0], "i": 7}, {"n": names[5], "i": 7}]})
+        # sections of two or three blocks without an index (linear seeks across blocks): refs only, and logs only
+        for li, hs in enumerate([40, 64]):
+            one = "d4" * (hs // 2)
+            names = ["refs/heads/branch%04d" % j for j in range(14)]
+            base = {"blocksize": 256, "restart": 16, "unaligned": False, "skipindex": True, "hash": "sha1" if hs == 40 else "s256", "exact": False, "min": 1, "max": 1}
+            pick.append(dict(base, id="flinr%d" % li, refs=[{"n": nm, "i": 1, "v": ["v", one, ""]} for nm in names], logs=[],
+                             seekrefs=[names[0], names[6], names[13], "zzz"], seeklogs=[]))
+            pick.append(dict(base, id="fling%d" % li, refs=[], seekrefs=[],
+                             logs=[{"n": nm, "i": 1, "del": False, "old": "", "new": one, "user": "user%d" % j, "email": "e%d@x" % j, "time": 5 + j, "tz": 0, "msg": "message %d" % j}
+                                   for j, nm in enumerate(names)], seeklogs=[{"n": names[0], "i": 1}, {"n": names[13], "i": 1}, {"n": "zzz", "i": 1}]))
         wd = os.path.join(sc, "faults")
         os.makedirs(wd)
         with open(os.path.join(wd, "cases.json"), "w") as f:
